@@ -11,7 +11,7 @@ from gvsim.sim import Client, Raised, Sim, sut
 
 PROP = 'C04'
 TIERS = {'quick': {'runs': 1600, 'wall': 100}, 'thorough': {'runs': 40000, 'wall': 1500}}
-REACH = ['read_before_reset', 'repeated_read', 'step_without_read', 'reset_mid_episode', 'outer_state_read', 'bad_action_outside', 'reseed_gv']  # probes / faults that must fire in every batch (reach gaps are reported in the evidence)
+REACH = ['read_before_reset', 'repeated_read', 'step_without_read', 'reset_mid_episode', 'outer_state_read', 'bad_action_outside', 'reseed_gv', 'lookahead_from_live_state_object', 'lookahead_actuates']  # probes / faults that must fire in every batch (reach gaps are reported in the evidence)
 RULE = ('one run = 1-3 clients (shipped configurations and random compositions, stochastic_raytracing included so that '
         'an extra observation computation shows up as generator drift), each paired with a twin environment that is '
         'only ever used through the functional interface (M-env); seeded interleaved op lists with arbitrary patterns '
